@@ -47,6 +47,62 @@ def oracle(chk, o, m):
                 chk.violation("client-supplied date value reached the host", d, observed=v.decode("latin-1"))
 
 
+def clock_steps(chk, binp):
+    """the wall clock of the agent is stepped while it runs (time synchronisation after boot, an administrator, a resume): the date
+    header of a request relayed afterwards is the time of that request by the new clock"""
+    import os
+    import subprocess
+    import calendar
+    so = os.path.join(vlib.VERIF, ".cache", "clockshim.so")
+    src = os.path.join(vlib.VERIF, "tools", "native", "clockshim.c")
+    cc = subprocess.run(["clang", "-shared", "-fPIC", "-O1", "-w", "-o", so, src, "-ldl"], stdout=subprocess.PIPE, stderr=subprocess.STDOUT, text=True)
+    if cc.returncode != 0:
+        chk.notes.append("clock-step stage skipped: the shim does not build (%s)" % cc.stdout[-200:])
+        return
+    sd = vlib.scratch_dir("c05clk")
+    off = os.path.join(sd, "offset.txt")
+    open(off, "w").write("0")
+    stack = e2e.Stack(binp, wrapper=["env", "LD_PRELOAD=" + so, "VERIF_CLOCK_OFFSET_FILE=" + off])
+    try:
+        callers = pipe.Callers(stack)
+        for ep in ("ws", "imds", "hostga"):
+            stack.ctl(f"rules {ep} none")
+        c = callers.caller(0, "curl", True)
+        conn = None
+        for step, offset in enumerate([0, -7200, -7200, 3600 * 30, 0]):
+            tmp = off + ".new"
+            open(tmp, "w").write(str(offset)); os.replace(tmp, off)
+            time.sleep(0.05)
+            if conn is None or step == 3:
+                if conn is not None:
+                    conn.close()
+                conn = stack.connect(audit=(0, c["pid"], 1, e2e.IMDS[0], e2e.IMDS[1]))     # a kept connection, and a fresh one after the third step
+            stack.hosts.take()
+            t0 = time.time()
+            r = conn.request(e2e.build_request("GET", "/metadata/instance?clock=%d" % step, [(b"Host", b"h")]), b"GET", 5.0)
+            t1 = time.time()
+            time.sleep(0.03)
+            recs = [x for x in stack.hosts.take() if not x.get("partial")]
+            chk.case(nontrivial_key=("clock-step", step, offset, bool(recs)))
+            chk.count("requests_after_a_clock_step")
+            if not recs:
+                chk.disagreement("pipeline", {"step": step}, "request relayed", r and r["status"])
+                continue
+            dts = [v.decode("latin-1") for n, v in recs[0]["headers"] if n.lower() == b"x-ms-azure-host-date"]
+            ok = len(dts) == 1 and pipe.date_ok(dts[0], t0 + offset, t1 + offset)
+            if not ok:
+                chk.violation("host did not see exactly one fresh date header",
+                              {"clock": "the agent's wall clock was stepped by %+d s before this request (step %d of 0, -2 h, -2 h, +30 h, 0)" % (offset, step),
+                               "agent_clock_now": time.strftime("%a, %d %b %Y %H:%M:%S GMT", time.gmtime(t1 + offset))},
+                              expected="one RFC1123 date within the request window by the agent's clock", observed=dts)
+        if conn is not None:
+            conn.close()
+    finally:
+        stack.close()
+        import shutil
+        shutil.rmtree(sd, ignore_errors=True)
+
+
 def run(chk):
     if not e2e.in_netns():
         e2e.reexec_in_netns()
@@ -72,6 +128,19 @@ def run(chk):
                     if rng.chance(1, 2):
                         case["env"][ep] = None
             runner.run_case(case)
+        # chunked requests whose TRAILER section carries copies of the proxy's own headers: they do not become headers at the host
+        for k in range(6 if chk.tier == "quick" else 60):
+            c_ = pipegen.gen_case(rng, callers, st, spoof=rng.chance(1, 2), dest_label=rng.pick(["imds", "ws"]), with_key=rng.chance(3, 4))
+            for ep in ("ws", "imds", "hostga"):
+                c_["env"][ep] = None
+            c_["caller"] = callers.caller(rng.pick([0, 1000]), "curl", True) if c_["label"] == "ws" else c_["caller"]
+            body = bytes(rng.below(256) for _ in range(rng.rand_range(1, 2000)))
+            c_["req"] = {"method": rng.pick(["POST", "PUT"]), "target": rng.pick(["/metadata/instance?t=%d" % k, "/vmAgentLog", "/machine/?comp=telemetrydata"]),
+                         "headers": list(c_["req"]["headers"]), "body": body, "chunked": [rng.rand_range(1, 700) for _ in range(4)],
+                         "trailers": [(b"x-ms-azure-host-claims", b'{ "isRoot": "true"}'), (b"x-ms-azure-host-date", b"Thu, 01 Jan 1970 00:00:00 GMT"),
+                                      (b"X-Ms-Azure-Host-Authorization", b"Azure-HMAC-SHA256 client-guid client-sig")][:rng.rand_range(1, 3)]}
+            chk.count("requests_with_proxy_headers_in_the_trailer_section")
+            runner.run_case(c_)
         # the host closes its side after a response; a further request on the same client connection either gets no relay at all or
         # is relayed with the proxy's own headers like any other (client-supplied copies never survive)
         for k in range(4 if chk.tier == "quick" else 40):
@@ -118,6 +187,7 @@ def run(chk):
         chk.sample(runner.describe(runner.observations[0]))
     finally:
         stack.close()
+    clock_steps(chk, binp)
     if chk.counts.get("signed", 0) < 10 or chk.counts.get("relayed", 0) < 50:
         chk.broken.append({"kind": "gate", "name": "generator sanity", "why": "too few relayed/signed cases"})
     chk.coverage["rule"] = ("e2e requests carrying 0-3 client copies of each proxy-owned header in random letter case with spoofed "
